@@ -65,11 +65,10 @@ def _stage(ctx: Ctx, name: str, tasks: list, total: dict,
     if done < len(tasks):
         ctx.cap(f'{name}: time cap {budget}s reached after {done} of '
                 f'{len(tasks)} slices of the canonical order')
+    keep = part['samples'][:1]
+    part['samples'] = []
     W.merge(total, part)
-    total['samples'].extend(
-        s for s in part['samples'][:2]
-        if s not in total['samples'] and len(total['samples']) < 6
-    )
+    total['samples'].extend(keep)
     ctx.part(
         name, cases=part['evals'], compared=part['programs'],
         nontrivial=part['nontrivial'], slices_done=done,
@@ -239,7 +238,9 @@ def run(ctx: Ctx) -> None:
         'minimised (statements/definitions dropped, sub-expressions tried, '
         'single operations tried) before it is reported.'
     )
-    for s in total['samples'][:6]:
+    # one written-out case per stage; prefer variety over the first six
+    smp = total['samples']
+    for s in (smp[1::2] + smp[0::2])[:6]:
         ctx.sample(s)
     for k, v in total['out'].items():
         ctx.outcomes[k] += v
